@@ -675,7 +675,7 @@ func fsNewName(r *Rng, pool []string, p string) string {
 }
 
 var fsData = []string{"", "x", "hello", "0123456789", "abcdefghijklmnopqrstuvwxyz", "\x00\x01", "AB"}
-var fsPerms = []int{0o644, 0o755, 0o600, 0o777, 0, 0o4755, 1<<23 | 0o755, 0o1777, 0o640}
+var fsPerms = []int{0o644, 0o755, 0o600, 0o777, 0, 0o4755, 1<<23 | 0o755, 0o1777, 0o640, 1<<20 | 0o777, 1<<22 | 0o775, 1<<23 | 1<<22 | 0o750}
 var fsAttrs = []string{"user.a", "security.capability", "user.b"}
 var fsFlags = []int{os.O_RDONLY, os.O_WRONLY, os.O_RDWR, os.O_RDWR | os.O_CREATE, os.O_WRONLY | os.O_CREATE | os.O_TRUNC,
 	os.O_RDWR | os.O_APPEND, os.O_WRONLY | os.O_APPEND | os.O_CREATE, os.O_RDWR | os.O_TRUNC, os.O_RDONLY | os.O_CREATE,
